@@ -31,6 +31,25 @@ FORMATS = [
 NUMERIC = ("%Y", "%y", "%m", "%d", "%H", "%I", "%M", "%S", "%f")
 
 
+def rand_named_format(rng, with_weekday):
+    """a generated format for LOCALIZED names: numeric directives (possibly run together), one month name and maybe a
+    weekday name, separated by characters that survive translation"""
+    nums = rng.sample(["%Y", "%d", "%H", "%M", "%S"], rng.randint(1, 5))
+    if "%Y" not in nums and rng.random() < 0.7:
+        nums.append("%Y")
+    rng.shuffle(nums)
+    names = ["%B"] + (["%A"] if with_weekday and "%d" in nums and "%Y" in nums and rng.random() < 0.5 else [])
+    # numeric part: runs glued together or separated
+    glue = rng.random() < 0.5
+    numpart = ("" if glue else rng.choice([" ", "-", "/", ":"])).join(nums)
+    # (not ". ": the sanitiser deletes a period that follows a letter, so "<name>. <numbers>" is not what the format says)
+    sep = rng.choice([" ", ", ", ",", " - ", "; "])
+    parts = [numpart] + names
+    if rng.random() < 0.5:
+        parts = names + [numpart]
+    return sep.join(parts)
+
+
 def rand_format(rng):
     """a format of DISTINCT directives in random order with random literal separators (the statement's "every
     strptime-style format made of distinct directives"); %I always with %p, %p never without %I"""
@@ -226,6 +245,8 @@ def run(ctx):
                     dt[0], dt[1], dt[2] = d0.year, d0.month, d0.day
                     pool = [f for f in named if "%A" in f or "%a" in f]
                 fmt = rng.choice(pool).replace("%b", "%B").replace("%a", "%A")
+                if kind == "B" and rng.random() < 0.35:
+                    fmt = rand_named_format(rng, all(names["A"]))
                 wd = datetime.date(dt[0], dt[1], dt[2]).weekday()
                 words = [names["B"][dt[1] - 1]] if "%B" in fmt else []
                 if "%A" in fmt:
